@@ -79,7 +79,7 @@ class P2PNet(Engine):
         for i in range(nparties):
             parties.append({'chain': base_chain if samechain else rng.choice(seams.CHAINS),
                             'skew': rng.choice([0.0, 0.0, 5.5, -7300.0, 7300.0, 86400.0 * 365, -3.25])})
-        fault_kinds = ['xor', 'setlen', 'repay', 'cmd', 'cut', 'dup', 'drop', 'splice', 'swap']
+        fault_kinds = ['xor', 'setlen', 'repay', 'cmd', 'cut', 'dup', 'drop', 'splice', 'swap', 'badsum']
         r = rng.random()
         if r < 0.15:
             enabled = []
@@ -220,6 +220,10 @@ class P2PNet(Engine):
         if kind == 'setlen':
             return {'kind': 'setlen', 'value': rng.choice(list(LEN_VALUES) + ['minus1', 'plus1', 'plus1', 'minus1', 'minus24', 'rand'])
                     , 'rand': rng.randrange(1 << 32)}
+        if kind == 'badsum':
+            # a byzantine sender that takes the four check bytes from the wrong place: another window of the
+            # same double-SHA256, the single SHA-256, the right bytes reversed, the digest of the whole frame
+            return {'kind': 'badsum', 'how': rng.choice(['window', 'window', 'window', 'single', 'reversed', 'frame', 'zero']), 'at': rng.randint(1, 28)}
         if kind == 'repay':
             return {'kind': 'repay', 'how': rng.choice(['trunc', 'extend', 'xor', 'empty']), 'n': rng.randint(1, 9),
                     'offset': rng.randrange(1 << 16), 'mask': rng.randint(1, 255)}
@@ -456,6 +460,15 @@ class P2PNet(Engine):
                 del fr[24:]
                 fr += pay
                 ctx.fault('byzantine-payload.' + how)
+            elif k == 'badsum':
+                import hashlib as _hl
+                pay = bytes(fr[24:])
+                dg = RW.dsha(pay)
+                c4 = {'window': dg[fl['at']:fl['at'] + 4], 'single': _hl.sha256(pay).digest()[:4], 'reversed': dg[:4][::-1],
+                      'frame': RW.dsha(bytes(fr))[:4], 'zero': b'\0\0\0\0'}[fl['how']]
+                if len(fr) >= 24:
+                    fr[20:24] = c4
+                ctx.fault('byzantine-checksum.' + fl['how'])
             elif k == 'cmd':
                 fr[4:16] = bytes.fromhex(fl['bytes'])
                 ctx.fault('command-rewrite')
